@@ -647,6 +647,11 @@ def run(ctx, facts):
     ctx.rule("K10", "add_count leaves its resize loop only with count < size_ctl or for a reason independent of the count and of the "
                     "resize hint", floor=1)
     rule_k10(ctx, facts)
+    ctx.rule("K12", "the count that add_count compares with the threshold is the number of entries: adjusted exactly once per link / unlink, "
+                    "clear hands over everything it removed (rule Q1 of C05) -- a count that drifts upwards doubles a table that is far from full",
+             floor=6)
+    from .rules_c05 import rule_q1_all
+    rule_q1_all(ctx, facts, rule="K12")
     rule_k1(ctx, facts)
     rule_k2(ctx, facts)
     rule_k3_k4(ctx, facts)
